@@ -790,6 +790,12 @@ func (dg *Discharger) Run(results []*FuncResult) {
 	}
 	ch := make(chan job)
 	var wg sync.WaitGroup
+	// once several instances of one obligation are not provable the obligation is not discharged
+	// whatever the others say: the remaining instances are not sent to the solvers (a heavily
+	// changed function can have thousands of instances, each running into the timeout)
+	var gmu sync.Mutex
+	notProved := map[string]int{}
+	const maxNotProved = 8
 	n := dg.Workers
 	if n == 0 {
 		n = 16
@@ -803,6 +809,16 @@ func (dg *Discharger) Run(results []*FuncResult) {
 				if o.Goal.S == "true" {
 					o.Result = &SolverResult{Answer: "unsat", Solver: "syntactic"}
 					continue
+				}
+				gkey := o.Fn + "/" + o.Name
+				if o.Class != "VACUITY" {
+					gmu.Lock()
+					skip := notProved[gkey] >= maxNotProved
+					gmu.Unlock()
+					if skip {
+						o.Result = &SolverResult{Answer: "unknown", Solver: "not tried", Output: "not tried: several instances of this obligation are already not provable"}
+						continue
+					}
 				}
 				q := buildQuery(j.decls, o.PC, o.Goal)
 				o.Query = q
@@ -840,6 +856,11 @@ func (dg *Discharger) Run(results []*FuncResult) {
 							o.Known = true
 							o.Excl = ex.S
 						}
+					}
+					if !o.Known {
+						gmu.Lock()
+						notProved[gkey]++
+						gmu.Unlock()
 					}
 				}
 			}
